@@ -191,6 +191,7 @@ PROPS = {
                               'C03_generated_last_instruction_is_read_by_exactly_the_listed_operators',
                               'C03_generated_last_instruction_is_read_by_exactly_the_listed_operators_skipping_no_quantize',
                               'C03_no_quantize_instructions_are_inert',
+                              'C03_pipeline_last_instructions_are_read_by_exactly_the_listed_operators',
                               'C03_unselected_op_untouched', 'C03_nonfloat_operand_never_quantized',
                               'C03_quantize_tensor_effect',
                               'C03_inserted_op_converts_between_neighbour_dtypes',
